@@ -479,6 +479,42 @@ thread_local! {
     pub static EXPECT_PANIC: std::cell::Cell<u32> = const { std::cell::Cell::new(0) };
 }
 
+/// Progress counter for the watchdog
+pub static PROGRESS: std::sync::atomic::AtomicU64 = std::sync::atomic::AtomicU64::new(0);
+
+/// Run one call of the subject with a step budget on its hooked atomic operations: a
+/// call that loops forever on its own ends in a panic that is reported as a verdict.
+pub fn catch_call<R>(f: impl FnOnce() -> R) -> Result<R, String> {
+    PROGRESS.fetch_add(1, std::sync::atomic::Ordering::Relaxed);
+    let tmp = crate::hook::begin_call();
+    let r = catch(f);
+    crate::hook::end_call(tmp);
+    r
+}
+
+/// Terminate the process if no call of the subject completes for a long time (a hang
+/// without atomic operations cannot be attributed; exit 2 = machinery, never a verdict)
+pub fn start_watchdog(secs: u64) {
+    std::thread::spawn(move || {
+        let mut last = PROGRESS.load(std::sync::atomic::Ordering::Relaxed);
+        let mut idle = 0u64;
+        loop {
+            std::thread::sleep(std::time::Duration::from_secs(10));
+            let now = PROGRESS.load(std::sync::atomic::Ordering::Relaxed);
+            if now == last {
+                idle += 10;
+                if idle >= secs {
+                    eprintln!("MACHINERY ERROR: no call of the subject completed for {idle}s (hang)");
+                    std::process::exit(2);
+                }
+            } else {
+                idle = 0;
+                last = now;
+            }
+        }
+    });
+}
+
 /// Run `f` (a call into the subject) catching its panic as a message
 pub fn catch<R>(f: impl FnOnce() -> R) -> Result<R, String> {
     EXPECT_PANIC.with(|c| c.set(c.get() + 1));
@@ -494,7 +530,7 @@ pub fn install_panic_hook() {
         let loc = info
             .location()
             .map(|l| format!("{}:{}", l.file(), l.line()));
-        if EXPECT_PANIC.with(|c| c.get()) == 0 {
+        if EXPECT_PANIC.with(|c| c.get()) == 0 || std::env::var("VERIF_DEBUG_PANICS").is_ok() {
             eprintln!("MACHINERY PANIC: {info}");
         }
         LAST_PANIC_LOC.with(|l| *l.borrow_mut() = loc);
@@ -541,7 +577,7 @@ impl Sut {
         let classing = cfg.classing.build();
         let policy = classing.policy;
         let meta = unsafe { bufs.meta() };
-        let r = catch(|| LLFree::new(cfg.frames, init, &classing, meta));
+        let r = catch_call(|| LLFree::new(cfg.frames, init, &classing, meta));
         match r {
             Ok(Ok(alloc)) => Ok(Self {
                 cfg: cfg.clone(),
@@ -560,7 +596,7 @@ impl Sut {
         let classing = self.cfg.classing.build();
         let meta = unsafe { self.bufs.meta() };
         let frames = self.cfg.frames;
-        match catch(|| LLFree::new(frames, init, &classing, meta)) {
+        match catch_call(|| LLFree::new(frames, init, &classing, meta)) {
             Ok(Ok(alloc)) => {
                 self.alloc = alloc;
                 Ok(())
@@ -579,7 +615,7 @@ impl Sut {
 
     /// Apply `op`, catching panics
     pub fn apply(&self, op: &Op) -> Res {
-        match catch(|| self.apply_raw(op)) {
+        match catch_call(|| self.apply_raw(op)) {
             Ok(r) => r,
             Err(p) => Res::Panic(p),
         }
